@@ -48,6 +48,11 @@ claim("C13",
   "Atomicity of each backend's batch on disk (C19), content equality of what is read back, and the writes SaveBlock performs outside its batch are not decided." + TB,
   STATIC + "path-order queries on the CFG (K2), error-discipline classifier over SSA def-use (K8), arithmetic normal forms of guards (K11), all-paths guards (K6/K1)")
 
+claim("C11",
+  "Structural clauses of the codec: the type registry (every RegisterConcrete in the module: constant, unique name; unique type; init-time; and for every message interface registered types == case types of the handler's type switch, both directions); encoder/decoder kind dispatch covers the same classes with the same precedence of the special cases (compared on the type-checked AST) and identical map type restrictions; the map writer sorts keys on every path before emitting and Less is strict byte order; bounded allocation (Stream.Kind's sticky size errors, every stream-sized allocation in decode.go dominated by the no-error Kind result or an explicit bound, incremental slice growth, map entry count bounded) and every decode entry point in the module limited; the explicit panic sites / unchecked assertions reachable from the decode entry points equal a reviewed table. A genuine unbounded/negative allocation was repaired (ab2aa21).",
+  "Round-trip equality, canonical integer forms and equality of decoded values are value properties of a reflective codec: NOT decided; implicit runtime panics inside reflect other than allocation sizes are not decided." + TB,
+  STATIC + "registry/sibling agreement over the call index and type switches (K5), guard dominance at allocation sites (K1), path query sort-before-emit (K7), reachability over static calls and function values with a reviewed sink table (K9)")
+
 for _p in ["C%02d" % i for i in range(1, 21)]:
     if _p not in CLAIMED:
         na(_p, PENDING)
